@@ -227,6 +227,36 @@ theorem C09_bytes_serial {cfg : Cfg} (wf : WF cfg) (lay : Layout cfg) {s : State
   · rintro ⟨p, hp, _⟩; rw [← hlen]; exact getElem?_lt hp
   · intro hk; exact ⟨_, hall k hk, rfl⟩
 
+theorem preallocb_sound {cfg : Cfg} (h : preallocb cfg = true) : Prealloc cfg := by
+  simp only [preallocb, Bool.and_eq_true, List.all_eq_true, List.mem_range, Bool.or_eq_true,
+    decide_eq_true_eq, List.any_eq_true, beq_iff_eq, Bool.not_eq_true', List.isEmpty_iff] at h
+  obtain ⟨h1, h3⟩ := h
+  refine ⟨fun φ k => ?_, fun φ => ?_⟩
+  · simp only [getB, List.getD_eq_getElem?_getD]
+    cases hf : cfg.files[φ]? with
+    | none => simp
+    | some f =>
+        simp only [Option.getD_some]
+        cases hk : f[k]? with
+        | none => rfl
+        | some b =>
+            have := h1 f (List.mem_of_getElem? hf) b (List.mem_of_getElem? hk)
+            simp [this]
+  · rcases Nat.lt_or_ge φ cfg.files.length with hφ | hφ
+    · rcases h3 φ hφ with e | ⟨i, hi, ⟨⟨e1, e2⟩, e3⟩⟩
+      · left; rw [e]; rfl
+      · right
+        exact ⟨i, hi, e1, by intro e; rw [e] at e2; simp at e2, e3⟩
+    · left
+      simp [List.getD_eq_getElem?_getD, List.getElem?_eq_none hφ]
+
+/-- **C09_bytes_serial_wb**: the files of a successful concurrent save equal the files the *serial* writer
+    produces starting from empty files (opened "wb", holes left by `seek`), although the parallel
+    writer starts from a zero file truncated to the total size. -/
+theorem C09_bytes_serial_wb {cfg : Cfg} (wf : WF cfg) (lay : Layout cfg) (pre : Prealloc cfg) {s : State}
+    (h : Reachable cfg s) (hm : s.main = .finished false) : s.files = serialFiles (cfgEmpty cfg) := by
+  rw [← serial_from_empty lay pre]; exact C09_bytes_serial wf lay h hm
+
 /-! ### non-vacuity -/
 
 /-- 2 workers, capacity 2, two oversized tensors (3 > 2) -/
@@ -240,6 +270,7 @@ def exCfg (fail0 : Bool) : Cfg where
   files := [[0, 0, 0, 0, 0, 0]]
 
 example : Layout (exCfg false) := layoutb_sound (by decide)
+example : Prealloc (exCfg false) := preallocb_sound (by decide)
 example : WF (exCfg false) := wfb_sound (by decide)
 example : WF (exCfg true) := wfb_sound (by decide)
 
@@ -420,6 +451,59 @@ theorem C09_bytes_serial {cfg : Cfg} (wf : WF cfg) (lay : Layout cfg) {s : State
   · rintro ⟨p, hp, _⟩; rw [← hlen]; exact getElem?_lt hp
   · intro hk; exact ⟨_, hall k hk, rfl⟩
 
+theorem preallocb_sound {cfg : Cfg} (h : preallocb cfg = true) : Prealloc cfg := by
+  simp only [preallocb, Bool.and_eq_true, List.all_eq_true, List.mem_range, Bool.or_eq_true,
+    decide_eq_true_eq, List.any_eq_true, beq_iff_eq, Bool.not_eq_true', List.isEmpty_iff] at h
+  obtain ⟨h1, h3⟩ := h
+  refine ⟨fun φ k => ?_, fun φ => ?_⟩
+  · simp only [getB, List.getD_eq_getElem?_getD]
+    cases hf : cfg.files[φ]? with
+    | none => simp
+    | some f =>
+        simp only [Option.getD_some]
+        cases hk : f[k]? with
+        | none => rfl
+        | some b =>
+            have := h1 f (List.mem_of_getElem? hf) b (List.mem_of_getElem? hk)
+            simp [this]
+  · rcases Nat.lt_or_ge φ cfg.files.length with hφ | hφ
+    · rcases h3 φ hφ with e | ⟨i, hi, ⟨⟨e1, e2⟩, e3⟩⟩
+      · left; rw [e]; rfl
+      · right
+        exact ⟨i, hi, e1, by intro e; rw [e] at e2; simp at e2, e3⟩
+    · left
+      simp [List.getD_eq_getElem?_getD, List.getElem?_eq_none hφ]
+
+/-- **C09_bytes_serial_wb**: the files of a successful concurrent save equal the files the *serial* writer
+    produces starting from empty files (opened "wb", holes left by `seek`), although the parallel
+    writer starts from a zero file truncated to the total size. -/
+theorem C09_bytes_serial_wb {cfg : Cfg} (wf : WF cfg) (lay : Layout cfg) (pre : Prealloc cfg) {s : State}
+    (h : Reachable cfg s) (hm : (s.pl 0).owner = .closed false) : s.files = serialFiles (cfgEmpty cfg) := by
+  rw [← serial_from_empty lay pre]; exact C09_bytes_serial wf lay h hm
+
+theorem reachable_EInv {cfg : Cfg} (wf : WF cfg) {s : State} (h : Reachable cfg s) : EInv cfg s := by
+  induction h with
+  | init => exact EInv_init cfg
+  | step l hr hst ih =>
+      exact EInv_step wf (reachable_Inv wf hr) (reachable_KInv wf hr) ih (stepRel_of_step hst)
+
+/-- **C09_error_reported**: when the save returns to the caller, it raises (`e = true`) exactly when
+    some tensor failed (its write or its callback raised).  Claimed: a failure is never swallowed and
+    an error is never invented.  Not claimed: *which* of several failures' exceptions the caller sees
+    (the first one the owner of each pool happens to consume), nor that tensors other than the failed
+    one were written. -/
+theorem C09_error_reported {cfg : Cfg} (wf : WF cfg) {s : State} (h : Reachable cfg s) {e : Bool}
+    (hm : (s.pl 0).owner = .closed e) : e = true ↔ ∃ i : Nat, s.tasks[i]? = some (.done false) := by
+  constructor
+  · intro he; subst he
+    exact closed_err_cause wf (reachable_Inv wf h) (reachable_EInv wf h) cfg.nPools 0 (by omega) hm
+  · rintro ⟨i, hi⟩
+    cases e
+    · have hil : i < cfg.n := by rw [← (reachable_Inv wf h).s.tasks_len]; exact getElem?_lt hi
+      have := finished_ok_all_done wf h hm i hil
+      rw [hi] at this; simp at this
+    · rfl
+
 /-- **C09_deadlock_free** (nested): every reachable state in which the save has not returned has an
     enabled step. -/
 theorem C09_deadlock_free {cfg : Cfg} (wf : WF cfg) {s : State} (h : Reachable cfg s)
@@ -566,6 +650,7 @@ def exNested (fail3 : Bool) : Cfg where
   files := [[0, 0, 0, 0, 0, 0, 0], [0, 0, 0, 0]]
 
 example : Layout (exNested true) := layoutb_sound (by decide)
+example : Prealloc (exNested true) := preallocb_sound (by decide)
 example : WF (exNested true) := wfb_sound (by decide)
 example : WF (exNested false) := wfb_sound (by decide)
 
